@@ -167,8 +167,8 @@ def context_managers(check, P):
 
     for cm_name, args in (("current_transform", {}), ("named_transform", {"name": Const("a")})):
         f = W.public_methods()[cm_name]
-        for body_kind in ("return", "raise"):
-            def entry(I, _, cm_name=cm_name, args=args, body_kind=body_kind):
+        for body_kind, pop_first in (("return", False), ("raise", False), ("return", True), ("raise", True)):
+            def entry(I, _, cm_name=cm_name, args=args, body_kind=body_kind, pop_first=pop_first):
                 W.call_method(I, "xf", "chain_transform", (M,))
                 W.call_method(I, "xf", "save_state", ())                 # one entry on the stack
                 if cm_name == "named_transform":
@@ -182,6 +182,10 @@ def context_managers(check, P):
 
                 def body(val):
                     inside["cur"] = cur_sig(I)
+                    # pop the entry saved *before* the context and transform it: an unnamed restore installs the
+                    # popped object itself, so a snapshot that shares stack entries with the live stack is corrupted
+                    if pop_first:
+                        W.call_method(I, "xf", "restore_state", ())
                     W.call_method(I, "xf", "chain_transform", (Unk("arg.M2", "array"),))
                     W.call_method(I, "xf", "save_state", ())
                     W.call_method(I, "xf", "save_state", ())
@@ -210,7 +214,8 @@ def context_managers(check, P):
                     continue
                 before, after, raised, inside = path.value
                 done += 1
-                label = f"{cm_name}() with a body that mutates transform and stack and {'raises' if body_kind == 'raise' else 'returns'}"
+                label = (f"{cm_name}() with a body that {'pops the outer stack entry, ' if pop_first else ''}mutates transform and stack "
+                         f"and {'raises' if body_kind == 'raise' else 'returns'}")
                 if body_kind == "raise" and raised is None:
                     check.violation("R3", f"{cm_name}:{body_kind}:swallowed", f"{label}: the body's exception does not propagate (got {raised})", [decisions_text(path)])
                 if before[0] == after[0]:
